@@ -15,6 +15,7 @@ Plan gen_c05(uint64_t seed, int tier)
   p.cfg["fo"] = fo;
   gen_sched(p, r);
   gen_backend(p, r);
+  gen_backend_mode(p, r);
   p.cfg["grace_us"] = r.pick<int64_t>({1, 1, 20, 20, 1000});
   p.cfg["hard"] = r.pick<int64_t>({1, 2, 4, 8, 8, 64, 32768});
   p.cfg["soft"] = r.pick<int64_t>({1, 2, 4, 8});
